@@ -1,7 +1,7 @@
 SPECIFICATION Spec
 CONSTANTS
-  Depths = {8, 64, 90, 250, 1000, 4000, 16000, 64000, 200000}
-  Levels = {"Lua51", "Lua54", "Lua55", "LuaJIT"}
+  Depths = {8, 64, 90, 250, 1000, 4000, 25000, 100000}
+  Levels = {"Lua51", "Lua55", "LuaJIT"}
   CleanUpTo = 90
   MustErrorAbove = 200
   EvK = 12
